@@ -306,6 +306,15 @@ def func_cases(rng, T, per_func_intervals=None):
         yield 'pwc_integral', fc + [[Fr(3), Fr(1)]], ['iv-reversed']
         yield 'pwc_avrg', fc + [[Fr(3), Fr(1)]], ['iv-reversed']
         yield 'pwl_integral', fl_ + [[Fr(-1), Fr(1)]], ['iv-outside']
+        # the piecewise-linear integral has no range check for the upper bound: it indexes past the arrays
+        # (IndexError) when b > x[-1] or a >= x[-1]; a reversed interval inside the support is computed
+        yield 'pwl_integral', fl_ + [[Fr(1), Fr(T + 1)]], ['iv-outside']
+        yield 'pwl_integral', fl_ + [[Fr(T), Fr(T)]], ['iv-degenerate']
+        yield 'pwl_integral', fl_ + [[Fr(T), Fr(1)]], ['iv-reversed']
+        yield 'pwl_integral', fl_ + [[Fr(3), Fr(1)]], ['iv-reversed']
+        yield 'pwl_avrg', fl_ + [[Fr(1), Fr(T + 1)]], ['iv-outside']
+        yield 'pwc_integral', fc + [[Fr(T), Fr(T)]], ['iv-degenerate']
+        yield 'pwc_integral', fc + [[Fr(0), Fr(0)]], ['iv-degenerate']
         yield 'disc_integral', fd + [[Fr(-1), Fr(1)]], ['iv-outside']
         yield 'disc_integral', fd + [[Fr(1), Fr(T + 1)]], ['iv-outside']
 
